@@ -111,6 +111,41 @@ class Ref(object):
         return (page, y, col * ppb, ppb, None)
 
 
+def hdr_of(op):
+    """bload / bloadgen: (header offset of the file, offset given in the statement or None).
+    optional last element: ['omit'] = BLOAD without offset (file saved from the target offset),
+    ['given', hoff] = explicit offset, file header says hoff; absent = explicit offset equal to the header's"""
+    off = op[2]
+    h = op[4] if op[0] == 'bload' and len(op) > 4 else op[5] if op[0] == 'bloadgen' and len(op) > 5 else None
+    if not h:
+        return off, off
+    if h[0] == 'omit':
+        return off, None
+    return h[1], off
+
+
+def bloadf_of(op, ops):
+    """['bloadf', k, off_or_None]: load the file BSAVEd by ops[k] -> (seg, header off, given off, n) or None"""
+    k = op[1]
+    if not (0 <= k < len(ops)) or ops[k][0] != 'bsave':
+        return None
+    return ops[k][1], ops[k][2], op[2], ops[k][3]
+
+
+def drop_op(ops, j):
+    """ops without ops[j]; bloadf references are renumbered, those to ops[j] are dropped"""
+    res = []
+    for k, op in enumerate(ops):
+        if k == j:
+            continue
+        if op[0] == 'bloadf':
+            if op[1] == j:
+                continue
+            op = ['bloadf', op[1] - (1 if op[1] > j else 0), op[2]]
+        res.append(op)
+    return res
+
+
 class C34(core.Check):
     ID = 'C34'
     GEN = ['gen_vmem']
@@ -238,6 +273,14 @@ class C34(core.Check):
         c.append(self.mk('tandy', {}, 6, 0, 1, 4, [['poke', B8, 3, 0x96], ['peek', B8, 3], ['peek', B8, 2]]))
         c.append(self.mk('cga', {}, 1, 0, 1, 4, [['poke', B8, 0, 256]]))
         c.append(self.mk('cga', {}, 1, 0, 1, 256, [['peek', B8, 5], ['bsave', B8, 0, 12]]))
+        # BSAVE from a non-zero offset, BLOAD of that file with an explicit offset 0 / omitted / elsewhere
+        # (seed C34c: `offset or g.offset` took 0 for "omitted")
+        c.append(self.mk('cga', {}, 1, 0, 3, 4, [['bsave', B8, 0x2000 + 100, 24], ['bloadf', 0, 0], ['bsave', B8, 0, 30]]))
+        c.append(self.mk('cga', {}, 0, 80, 9, 256, [['bsave', B8, 0x1000 + 162, 24], ['bloadf', 0, 0], ['peek', B8, 0]]))
+        c.append(self.mk('ega', {}, 9, 0, 1, 16, [['bsave', A0, 81, 20], ['bloadf', 0, 0], ['bloadf', 0, None],
+                                                 ['bloadf', 0, 160]]))
+        c.append(self.mk('tandy', {}, 6, 0, 8, 4, [['bload', B8, 0, [255, 0, 255, 1, 2], ['given', 161]],
+                                                  ['bloadgen', B8, 0x2001, 5, 9, ['omit']], ['bsave', B8, 0, 8]]))
         return c
 
     def addr_pool(self, i, rng):
@@ -308,7 +351,7 @@ class C34(core.Check):
                 if ops and rng.random() < 0.35:
                     # near an earlier address: read back what was written
                     prev = ops[-1]
-                    if prev[0] in ('peek', 'poke', 'bsave', 'bload', 'bloadgen'):
+                    if prev[0] in ('peek', 'poke', 'bsave', 'bload', 'bloadgen') and rng.random() < 0.8:
                         a = min(max(prev[1] * 16 + prev[2] + rng.choice([0, 0, 0, 1, -1, 2, -5]), VIDEO_LO), VIDEO_HI - 1)
                 seg, off = self.split(a, i, rng)
                 if i['kind'] == 1 and rng.random() < 0.3:
@@ -317,6 +360,17 @@ class C34(core.Check):
                     else:
                         ops.append(['mask', rng.choice([0, 1, 2, 4, 8, 5, 10, 15, 255, 16, 3])])
                     kind = 'reg'
+                elif rng.random() < 0.4 and any(o[0] == 'bsave' for o in ops):
+                    # load a file saved earlier in the session: at offset 0, where it came from, elsewhere
+                    k = rng.choice([j for j, o in enumerate(ops) if o[0] == 'bsave'])
+                    room = VIDEO_HI - ops[k][1] * 16 - ops[k][3]
+                    cands = [None, 0, 0, ops[k][2]]
+                    if ops[k][1] == seg:
+                        cands.append(off)
+                    lo = max(0, VIDEO_LO - ops[k][1] * 16)
+                    cands = [c for c in cands if c is None or lo <= c <= min(room, 0xffff)]
+                    ops.append(['bloadf', k, rng.choice(cands or [None])])
+                    kind = 'bloadf'
                 elif r < 0.25:
                     ops.append(['peek', seg, off])
                     kind = 'peek'
@@ -332,12 +386,16 @@ class C34(core.Check):
                     if r < 0.75:
                         ops.append(['bsave', seg, off, ln])
                         kind = 'bsave'
-                    elif ln <= 24 and rng.random() < 0.5:
-                        ops.append(['bload', seg, off, common.rand_bytes(rng, ln)])
-                        kind = 'bload'
                     else:
-                        # long writes are slow in the model (list indexing): cap them
-                        ops.append(['bloadgen', seg, off, rng.randrange(256), min(ln, 2500)])
+                        # the file header may name another offset than the statement, or the statement none
+                        hv = rng.random()
+                        h = [] if hv < 0.4 else [['omit']] if hv < 0.6 else \
+                            [['given', rng.choice([0, 1, off ^ 1, (off + 0x2000) & 0xffff, rng.randrange(0x10000)])]]
+                        if ln <= 24 and rng.random() < 0.5:
+                            ops.append(['bload', seg, off, common.rand_bytes(rng, ln)] + h)
+                        else:
+                            # long writes are slow in the model (list indexing): cap them
+                            ops.append(['bloadgen', seg, off, rng.randrange(256), min(ln, 2500)] + h)
                         kind = 'bload'
                 hist[kind] = hist.get(kind, 0) + 1
             case = self.mk(ad, opts, scr, w, rng.randrange(256), prange, ops)
@@ -345,10 +403,15 @@ class C34(core.Check):
         self.histogram = hist
         return out
 
-    def op_addrs(self, op):
+    def op_addrs(self, op, ops=()):
         """absolute addresses touched by an operation (sampled for long blocks)"""
         if op[0] in ('peek', 'poke'):
             return [op[1] * 16 + op[2]]
+        if op[0] == 'bloadf':
+            f = bloadf_of(op, ops)
+            if f is None:
+                return []
+            op = ['bsave', f[0], f[1] if f[2] is None else f[2], f[3]]
         if op[0] in ('bsave', 'bloadgen', 'bload'):
             a = op[1] * 16 + op[2]
             n = op[3] if op[0] == 'bsave' else (op[4] if op[0] == 'bloadgen' else len(op[3]))
@@ -373,7 +436,7 @@ class C34(core.Check):
                 seen.add((p, a, b))
                 pr.append([p, a, b])
         for op in case['ops']:
-            for a in self.op_addrs(op):
+            for a in self.op_addrs(op, case['ops']):
                 for aa in (a, a - 1, a + 1):
                     c = ref.cell(aa)
                     if c is None:
@@ -450,6 +513,24 @@ class C34(core.Check):
                     r = s.execute('OUT %s,%d' % ('&H3CF' if kind == 'plane' else '&H3C5', op[1]))
                     e = self.basic_error(r)
                     rec['res'] = None
+                elif kind == 'bloadf':
+                    e = None
+                    f = bloadf_of(op, case['ops'])
+                    if f is not None and 'res' in recs[op[1]]:
+                        fseg, foff, given, n = f
+                        # the address asked for: the given offset (0 included), else where the file came from
+                        target = fseg * 16 + (foff if given is None else given)
+                        rec['target'] = target
+                        if bytewise:
+                            for j, b in enumerate(recs[op[1]]['res']):
+                                mem._set_memory(target + j, b)
+                        else:
+                            r = s.execute('DEF SEG=%d' % fseg)
+                            e = self.basic_error(r)
+                            if e is None:
+                                r = s.execute('BLOAD "S%d"%s' % (op[1], '' if given is None else ',%d' % given))
+                                e = self.basic_error(r)
+                        rec['snap'] = self.snapshot(s, i)
                 else:
                     seg, off = op[1], op[2]
                     addr = seg * 16 + off
@@ -493,12 +574,13 @@ class C34(core.Check):
                             out.extend(report(data))
                     elif e is None and kind in ('bload', 'bloadgen'):
                         data = op[3] if kind == 'bload' else gen_bytes(op[3], op[4])
+                        hoff, given = hdr_of(op)
                         if bytewise:
                             for j, b in enumerate(data):
                                 mem._set_memory(addr + j, b)
                         else:
-                            self.write_bload(d, 'L%d' % k, seg, off, data)
-                            r = s.execute('BLOAD "L%d",%s' % (k, offs))
+                            self.write_bload(d, 'L%d' % k, seg, hoff, data)
+                            r = s.execute('BLOAD "L%d"%s' % (k, '' if given is None else ',' + offs))
                             e = self.basic_error(r)
                         rec['snap'] = self.snapshot(s, i)
                 recs.append(rec)
@@ -535,6 +617,11 @@ class C34(core.Check):
                 ops.append('OpPlane %d' % op[1])
             elif k == 'mask':
                 ops.append('OpMask %d' % op[1])
+            elif k == 'bloadf':
+                f = bloadf_of(op, case['ops'])
+                if f is not None:
+                    idx = sum(1 for o in case['ops'][:op[1]] if o[0] == 'bsave')
+                    ops.append('OpBloadFile %d %s' % (idx, 'None' if op[2] is None else '(Some %d)' % op[2]))
             else:
                 a = op[1] * 16 + op[2]
                 if k == 'peek':
@@ -542,11 +629,14 @@ class C34(core.Check):
                 elif k == 'poke':
                     ops.append('OpPoke %d (%d)' % (a, op[3]))
                 elif k == 'bsave':
-                    ops.append('OpBsave %d %d' % (a, op[3]))
-                elif k == 'bload':
-                    ops.append('OpBload %d %s' % (a, core.zl(op[3])))
-                elif k == 'bloadgen':
-                    ops.append('OpBloadGen %d %d %d' % (a, op[3], op[4]))
+                    ops.append('OpBsave %d %d %d' % (op[1], op[2], op[3]))
+                elif k in ('bload', 'bloadgen'):
+                    hoff, given = hdr_of(op)
+                    o = 'None' if given is None else '(Some %d)' % given
+                    if k == 'bload':
+                        ops.append('OpBload %d %d %s %s' % (op[1], hoff, o, core.zl(op[3])))
+                    else:
+                        ops.append('OpBloadGen %d %d %s %d %d' % (op[1], hoff, o, op[3], op[4]))
         probes = '; '.join('(%d, %d, %d)' % tuple(p) for p in case['probes'])
         return '(run_case (%s %d) %d %d [%s] [%s])' % (
             mode_ident(i['name']), i['mem'], case['seed'], case['range'], '; '.join(ops), probes)
@@ -593,6 +683,12 @@ class C34(core.Check):
                 plane_reg = op[1]
                 continue
             if kind == 'mask':
+                continue
+            if kind == 'bloadf':
+                if 'snap' in ra and 'snap' in rb and ra['snap'] != rb['snap']:
+                    return 'BLOAD "f"%s of the %d bytes BSAVEd from offset %d differs from POKEs of those bytes at %#x' % (
+                        '' if op[2] is None else ',%d' % op[2], case['ops'][op[1]][3], case['ops'][op[1]][2],
+                        rb.get('target', 0))
                 continue
             addr = op[1] * 16 + op[2]
             if kind == 'poke' and 'after' in rb:
@@ -688,7 +784,7 @@ class C34(core.Check):
         i = self.info(case)
         ref = Ref(i)
         for op in case['ops']:
-            for a in self.op_addrs(op):
+            for a in self.op_addrs(op, case['ops']):
                 if ref.cell(a) is not None:
                     return -1 not in out[:2]
         return False
@@ -697,7 +793,7 @@ class C34(core.Check):
         ops = case['ops']
         for k in range(len(ops)):
             c = dict(case)
-            c['ops'] = ops[:k] + ops[k + 1:]
+            c['ops'] = drop_op(ops, k)
             if c['ops']:
                 yield c
         for k, op in enumerate(ops):
